@@ -133,6 +133,14 @@ def run(ctx, sm, facts):
         for delay in range(1, ratio):
             k += 1
             runs.append((ratio, msgs[k % len(msgs)], 0, consumers[k % len(consumers)][0], consumers[k % len(consumers)][1], delay))
+        # consumers that leave a completed byte pending for several bit periods while the next frame is already on the line.  The receiver has
+        # one holding register and the hand-over needs two clocks with ready high, so a consumer is inside the domain of the property only if
+        # two of its ready clocks fall within one frame time (10 bit periods): 2, 3 and 4 bit periods between ready clocks do.
+        for periods in (2, 3, 4):
+            for gap in (0, 1, ratio):
+                k += 1
+                runs.append((ratio, msgs[k % len(msgs)], gap, 'ready for one clock every %d bit periods' % periods,
+                             (lambda t, P=periods * ratio: int(t % P == P - 1)), 0))
     if tier == 'thorough':
         runs.append((4, [rnd.randrange(256) for _ in range(8)], 0, 'always ready', consumers[0][1], 0))
         runs.append((6, [rnd.randrange(256) for _ in range(8)], 3, 'pseudo-random', consumers[3][1], 2))
